@@ -23,6 +23,9 @@ LIMITS = {
     # the caller hands float32 / int64 arrays to the constructor: tracking must still be double precision
     "f32": (0.1, 200.3, 100.1),
     "i64": (0, 100, 7),
+    # A/S and two labware with much wider limits (B/U) are constructed from one and the same float64 array
+    # objects, which the caller later re-uses: nothing done to B, U or the arrays may move a well of A or S
+    "alias": (10, 100, 50),
 }
 assert 0.6 + (1.7 - 0.6) > 1.7 and 32.02 + (100.2 - 32.02) > 100.2 and 0.39 - (0.39 - 0.1) < 0.1
 _MSG = re.compile(r'"(.+?)"\.([A-Z]\d+):')
@@ -44,6 +47,14 @@ def rem_volumes(v, mn, mx):
 
 def J(v):
     return fhex(v)
+
+
+def up32(x):
+    """the smallest single-precision number >= x, as the hex string of its exact value (None if not finite)"""
+    f = np.float32(x)
+    if float(f) < x:
+        f = np.nextafter(f, np.float32(np.inf))
+    return float(f).hex() if np.isfinite(f) else None
 
 
 class Harness(cm.BaseA):
@@ -72,6 +83,24 @@ class Harness(cm.BaseA):
     def configs(self, tier):
         out = []
         for name, (mn, mx, init) in LIMITS.items():
+            if name == "alias":
+                out.append(
+                    {
+                        "limits": name,
+                        "fresh": True,  # shared memory does not survive pickling: every transition re-executes its history
+                        "labware": [
+                            dict(plate("A", 2, 1, mn, mx, [[init], [init]]), share="pa"),
+                            dict(trough("S", 2, 2, mn, mx, [init, init]), share="ts"),
+                            dict(plate("B", 2, 1, 0, 1e6, [[init], [init]]), share="pa"),
+                            dict(trough("U", 2, 2, 0, 1e6, [init, init]), share="ts"),
+                        ],
+                        "worklists": {
+                            "w": {"cls": "EvoWorklist", "max_volume": 4e6, "auto_split": True},
+                            "ws": {"cls": "FluentWorklist", "max_volume": mx / 2.5, "auto_split": True},
+                        },
+                    }
+                )
+                continue
             out.append(
                 {
                     "limits": name,
@@ -107,6 +136,17 @@ class Harness(cm.BaseA):
     def events(self, W, config, full):
         mn, mx, _ = LIMITS[config["limits"]]
         ev = []
+        if config["limits"] == "alias":
+            full = False  # the thin alphabet on A/S, plus legal operations on the labware that share their arrays
+            ev += [
+                ["add", "B", "A01", 500, {}],
+                ["remove", "B", "B01", 45, {}],
+                ["dispense", "w", "U", ["B01"], [500], {}],
+                ["aspirate", "w", "U", ["A02"], [45], {}],
+                ["transfer", "w", "B", ["A01"], "U", ["A02"], [45], {}],
+                ["caller_write", "pa", -1.0],
+                ["caller_write", "ts", 1e7],
+            ]
         for lw, wid, alias in self.CELLS:
             v = self._vol(W, lw, wid)
             adds, rems = add_volumes(v, mn, mx), rem_volumes(v, mn, mx)
@@ -129,6 +169,14 @@ class Harness(cm.BaseA):
                 ev.append(["aspirate", "w", lw, [wid, wid, wid], J(av / 2), {}])
                 ev.append(["add", lw, [wid, wid], [J(room), J(5e-324)], {}])
                 ev.append(["remove", lw, [wid, wid], [J(av), J(5e-324)], {}])
+                # single-precision volume arguments: every float32 is a float64, the sum must be taken in double precision
+                x32, y32 = up32(na(room)), up32(na(av))
+                if x32 is not None and room > 0:
+                    ev.append(["add", lw, wid, {"$np32": x32}, {}])
+                    ev.append(["dispense", "w", lw, [wid], {"$a32": [x32]}, {}])
+                if y32 is not None and av > 0:
+                    ev.append(["remove", lw, wid, {"$a32": [y32]}, {}])
+                    ev.append(["aspirate", "w", lw, [wid], {"$np32": y32}, {}])
                 if alias:
                     ev.append(["dispense", "w", lw, [wid, alias], [J(room / 2), J(na(room / 2))], {}])
                     ev.append(["aspirate", "w", lw, [alias, wid], [J(av / 2), J(na(av / 2))], {}])
@@ -203,6 +251,9 @@ class Harness(cm.BaseA):
         # drop malformed candidates (negative relative volumes can arise from partially applied states)
         out = []
         for e in ev:
+            if e[0] == "caller_write":
+                out.append(e)
+                continue
             vs = ref_vols(e[3] if e[0] in ("add", "remove") else e[4] if e[0] in ("aspirate", "dispense") else e[6] if e[0] in ("transfer", "evo_aspirate", "evo_dispense") else e[6]["volume"])
             vs = vs if isinstance(vs, list) else [vs]
             if all(isinstance(x, (int, float)) and x == x and x >= 0 for x in vs):
@@ -241,6 +292,7 @@ class Harness(cm.BaseA):
 
     def step(self, W, ev, config):
         mn, mx, _ = LIMITS[config["limits"]]
+        lims = {sp["name"]: (sp["min"], sp["max"]) for sp in config["labware"]}
         geos = cm.geos(config)
         pre = {n: lw.volumes for n, lw in W["lw"].items()}
         prekey = self.canon(W, config)
@@ -254,17 +306,19 @@ class Harness(cm.BaseA):
         V = res["violations"]
         # (a) state invariant
         for n, a in post.items():
-            if np.any(np.isnan(a)) or np.any(a < 0) or np.any(a > mx):
-                V.append(("C02/invariant", f"{n} volumes {a.tolist()} outside [0, {mx}]"))
+            if np.any(np.isnan(a)) or np.any(a < 0) or np.any(a > lims[n][1]):
+                V.append(("C02/invariant", f"{n} volumes {a.tolist()} outside [0, {lims[n][1]}]"))
         # (b) limits after a normal return
         if out == "ok":
             for n in post:
                 inc = post[n] > pre[n]
                 decr = post[n] < pre[n]
-                if np.any(post[n][inc] > mx):
-                    V.append(("C02/above-max-after-addition", f"{n}: {pre[n].tolist()} -> {post[n].tolist()} (max {mx})"))
-                if np.any(post[n][decr] < mn):
-                    V.append(("C02/below-min-after-removal", f"{n}: {pre[n].tolist()} -> {post[n].tolist()} (min {mn})"))
+                if np.any(post[n][inc] > lims[n][1]):
+                    V.append(("C02/above-max-after-addition", f"{n}: {pre[n].tolist()} -> {post[n].tolist()} (max {lims[n][1]})"))
+                if np.any(post[n][decr] < lims[n][0]):
+                    V.append(("C02/below-min-after-removal", f"{n}: {pre[n].tolist()} -> {post[n].tolist()} (min {lims[n][0]})"))
+        if op == "caller_write":
+            return res
         # (c) decision + (d) offending well unchanged
         must = None  # (class name, labware, cell, expected float value of that cell)
         if op in ("add", "remove", "aspirate", "dispense", "evo_aspirate", "evo_dispense"):
@@ -275,6 +329,7 @@ class Harness(cm.BaseA):
             else:
                 lw, wells, vols = ev[2], ev[3], ev[6]
             kind = "add" if op in ("add", "dispense", "evo_dispense") else "rem"
+            mn, mx = lims[lw]
             pairs = [(c, float(v)) for c, v in ((c, ref_float(v)) for c, v in raw_pairs(config, lw, wells, vols))]
             cur = {c: float(pre[lw][c]) for c in geos[lw].real_wells()}
             i, state, amb = self.sim_pairs(cur, pairs, kind, mn, mx)
@@ -286,12 +341,12 @@ class Harness(cm.BaseA):
             if vol > 0:
                 sc, dc = geos[sl].real(sw), geos[dl].real(dw)
                 cur = {(sl, c): float(pre[sl][c]) for c in geos[sl].real_wells()}
-                i, st, amb = self.sim_pairs({sc: cur[(sl, sc)]}, [(sc, vol)], "rem", mn, mx)
+                i, st, amb = self.sim_pairs({sc: cur[(sl, sc)]}, [(sc, vol)], "rem", *lims[sl])
                 if i is not None:
                     must = ("VolumeUnderflowError", sl, sc, float(pre[sl][sc]))
                 elif not amb:
                     dcur = st[sc] if (dl, dc) == (sl, sc) else float(pre[dl][dc])
-                    j, st2, amb2 = self.sim_pairs({dc: dcur}, [(dc, vol)], "add", mn, mx)
+                    j, st2, amb2 = self.sim_pairs({dc: dcur}, [(dc, vol)], "add", *lims[dl])
                     if j is not None:
                         must = ("VolumeOverflowError", dl, dc, dcur)
         elif op == "distribute":
